@@ -264,7 +264,12 @@ func genC02(t *rapid.T) *Case {
 	case 0:
 		// forced attributes: the sandbox list is a switch-like setting (its most recent call counts)
 		spec := genSpec(t, &SpecOpts{Kinds: kinds, MaxOps: 5})
-		spec.Ops = append(spec.Ops, Op{Kind: "AllowAttrs", Attrs: []string{"src", "sandbox", "crossorigin", "id"}, Scope: "els", Names: []string{"iframe", "img"}, ValRe: -1})
+		own := []string{"src", "sandbox", "crossorigin", "id"}
+		if rapid.IntRange(0, 2).Draw(t, "sandboxNotAllowed") == 0 {
+			own = []string{"src", "id"} // sandbox and crossorigin reach the output only when forced
+			spec.Ops = append(spec.Ops, Op{Kind: "RequireCrossOriginAnonymous", B: true, ValRe: -1})
+		}
+		spec.Ops = append(spec.Ops, Op{Kind: "AllowAttrs", Attrs: own, Scope: "els", Names: []string{"iframe", "img"}, ValRe: -1})
 		for i := rapid.IntRange(1, 3).Draw(t, "nsbcalls"); i > 0; i-- {
 			spec.Ops = append(spec.Ops, Op{Kind: rapid.SampledFrom([]string{"RequireSandboxOnIFrame", "AllowIFrames"}).Draw(t, "sbkindop"), Vals: drawSandbox(t), ValRe: -1})
 		}
@@ -274,7 +279,14 @@ func genC02(t *rapid.T) *Case {
 			for j := rapid.IntRange(0, 5).Draw(t, "nsbt"); j > 0; j-- {
 				toks = append(toks, rapid.SampledFrom(sbToks).Draw(t, "sbtok"))
 			}
-			sb.WriteString(`<iframe src="http://example.com/x" sandbox="` + strings.Join(toks, " ") + `">t</iframe>`)
+			switch rapid.IntRange(0, 4).Draw(t, "ifshape") {
+			case 0: // none of its own attributes survives
+				sb.WriteString(`<iframe onload="x" sandbox="` + strings.Join(toks, " ") + `">t</iframe><img onerror="x" crossorigin="use-credentials">`)
+			case 1:
+				sb.WriteString(`<iframe src="javascript:x">t</iframe><img src="vbscript:x" id="">`) // removed by the URL pass, after the rule filter
+			default:
+				sb.WriteString(`<iframe src="http://example.com/x" sandbox="` + strings.Join(toks, " ") + `">t</iframe>`)
+			}
 		}
 		return &Case{Spec: spec, Input: BStr(sb.String()), Kind: "sandbox-focus", Ints: []int{drawStage(t, spec)}}
 	case 1:
@@ -372,6 +384,21 @@ func checkAttributes(m *Model, log *Log, in, out string, inToks, outToks []tok, 
 		el := t.Name
 		if len(t.Attr) == 0 && !m.MayBeBare(el) {
 			return false, violation(out, "C02: <%s> is emitted without attributes although the policy permits it only with attributes", el)
+		}
+		if len(t.Attr) > 0 && !m.MayBeBare(el) {
+			// an element the policy permits only with attributes must not be emitted with nothing but
+			// attributes the sanitiser forced on it (rel, target, crossorigin, sandbox that no rule admits)
+			own := 0
+			for _, a := range t.Attr {
+				k, v := a.Key, a.Val
+				forcedKey := k == "rel" || k == "target" || k == "crossorigin" || k == "sandbox"
+				if !forcedKey || m.AttrAllowed(el, k, v) || (m.dataAttrs && wellFormedData(k)) {
+					own++
+				}
+			}
+			if own == 0 {
+				return false, violation(out, "C02: <%s> is emitted with forced attributes only although the policy permits it only with attributes of its own", el)
+			}
 		}
 		for _, a := range t.Attr {
 			k, v := a.Key, a.Val
